@@ -21,11 +21,12 @@ FILES = {"main": "main.asm", "inc": "inc.asm", "other": "other.asm", "cfg": "mos
 
 TEXTS = {
     "ma": '.import * from "inc.asm"\nfoo: {\n  lda bar // é汉 x\n  bar: nop\n}\n  lda foo.bar\n  sta ext\n',
-    "mb": '/// entry\nfoo: {\n  lda baz\n  baz: rts\n}\nfoo2: lda foo.baz // ü\U0001F600 tail\n.const c1 = 4\n  ldx #c1\n.const seg = "default"\nsc: {\n  .const seg = "default"\n  .segment seg {\n    tbl: .byte 1, 2\n  }\n}\n',
+    "mb": '/// entry\nfoo: {\n  lda baz\n  baz: rts\n}\nfoo2: lda foo.baz // ü\U0001F600 tail\n.const c1 = 4 /* é\n é */ + 2\n  ldx #c1\n.const seg = "default"\nsc: {\n  .const seg = "default"\n  .segment seg {\n    tbl: .byte 1, 2\n  }\n}\n',
     "mx": '.import * from "inc.asm"\nfoo: {\n  lda (\n  bar: nop\n}\n  sta ext\n',
     "ia": "ext: nop\n",
-    "ib": ".import * from \"inc2.asm\"\n/// doc ñ\next: rts\nother2: .byte 1 // ñ\n.segment \"default\" {\n  itbl: .byte 3\n}\n  lda deep\n",
+    "ib": ".import * from \"inc2.asm\"\n/// doc ñ\next: rts\nother2: .byte 1 // ñ\n.segment \"default\" {\n  itbl: .byte 3\n}\n  lda deep\n.test \"t1\" {\n  brk\n}\n",
     "i2": "deep: rts // ü second import level\n",
+    "ir": ".import * from \"main.asm\"\next: nop\n",        # imports the entry file: a cycle as soon as main imports inc
     "ca": '[build]\nentry = "main.asm"\n',
     "cb": '[build]\nentry = "src/start.asm"\n',            # names a file that does not exist (yet)
     "-": "",
@@ -78,8 +79,9 @@ def wild_position(text, rnd):
 class Session:
     """Drives one server and records what it did.  No verdicts here."""
 
-    def __init__(self, mos, root, sid, layout="A"):
+    def __init__(self, mos, root, sid, layout="A", bad_init=False):
         self.srv = L.Server(mos, root, timeout=8.0)
+        self.bad_init = bad_init
         self.disk = LAYOUTS[layout]
         self.layout = layout
         self.root = root
@@ -92,7 +94,12 @@ class Session:
         for f, t in self.disk.items():
             self.note_text(t, TEXTS[t])
         self.note_text("-", "")
-        self.init = self.srv.initialize()
+        if bad_init:       # parameters that do not deserialize (processId must be a number)
+            self.init = self.srv.request("initialize", {"processId": "abc", "capabilities": {}})
+            self.srv.notify("initialized", {})
+            self._ev(k="malformed", f="initialize")
+        else:
+            self.init = self.srv.initialize()
 
     def note_text(self, tid, text):
         self.texts[tid] = text
@@ -143,11 +150,33 @@ class Session:
             self.last_round = sorted({L.rel(self.root, p) for p, d in pubs})
         return ok
 
+    def odd(self, what):
+        """messages the protocol does not foresee: -> True when the server is still running afterwards"""
+        main = L.uri_of(os.path.join(self.root, "main.asm"))
+        if what == "badnotif":                       # didOpen without `text`
+            self.srv.notify("textDocument/didOpen", {"textDocument": {"uri": main}})
+            self._ev(k="malformed", f="main.asm")
+            return self.request("workspaceSymbol", "main.asm", 0, 0, query="\u0001none")
+        if what == "badreq":                         # hover without a position
+            r = self.srv.request("textDocument/hover", {"textDocument": {"uri": main}})
+            kind = "malformed"
+        elif what == "negpos":
+            r = self.srv.request("textDocument/hover", {"textDocument": {"uri": main}, "position": {"line": -1, "character": 0}})
+            kind = "malformed"
+        else:                                        # a request method the server does not know
+            r = self.srv.request("textDocument/foldingRange", {"textDocument": {"uri": main}}, timeout=3.0)
+            kind = "unknown"
+        self._ev(k="req", f="main.asm", kind=kind, status=r["status"], panic=r["panic"] or "", nonnull=r["result"] is not None)
+        return r["status"] in ("ok", "error")
+
     def request(self, kind, f, line, ch, final=False, **kw):
         """-> True when the server is still running afterwards"""
         path = f if f.startswith("untitled:") else os.path.join(self.root, f)
         if f.startswith("untitled:"):
             self._ev(k="nonfile", f=f, kind=kind)
+        if f.endswith("%FF.asm"):
+            path = "/tmp/%FF.asm"                     # (percent-encoded byte 0xFF: the path is not UTF-8)
+            self._ev(k="nonfile", f=f, t="nonutf8", kind=kind)
         m, p = L.params_for(kind, path, line, ch, **kw)
         r = self.srv.request(m, p)
         e = self._ev(k="req", f=f, kind=kind, line=min(line, 2 ** 31 - 1), ch=min(ch, 2 ** 31 - 1), status=r["status"], panic=r["panic"] or "",
@@ -234,9 +263,11 @@ def lt_of(text):
 
 
 def run_session(mos, roots, sid, script, layout="A"):
+    bad_init = bool(script) and script[0] == ("badinit",)
+    script = script[1:] if bad_init else script
     """script: list of ("open"|"change", f, tid, text) | ("close", f) | ("req", kind, f, line, ch) | ("rename", f)"""
     root = roots[layout]
-    ses = Session(mos, root, sid, layout)
+    ses = Session(mos, root, sid, layout, bad_init=bad_init)
     alive = ses.init["status"] == "ok"
     for st in script:
         if not alive:
@@ -249,6 +280,8 @@ def run_session(mos, roots, sid, script, layout="A"):
             alive = ses.notif("change", st[1], nch=0)
         elif st[0] == "change2":
             alive = ses.notif("change", st[1], st[4], st[5], first=(st[2], st[3]))
+        elif st[0] == "odd":
+            alive = ses.odd(st[1])
         elif st[0] == "nonfile":
             alive = ses.notif("nonfile", "untitled:Untitled-1", text="  nop\n") if st[1] == "open" else ses.request(st[1], "untitled:Untitled-1", 0, 1)
         elif st[0] == "rename":
@@ -275,7 +308,8 @@ def run_session(mos, roots, sid, script, layout="A"):
     rec = {"id": sid, "disk": [{"f": f, "t": ses.disk[f]} for f in files],
            "cfg": "mos.toml",
            "texts": [{"t": t, "lt": lt_of(x) if t != "-" else [], "imp": re.findall(r'^\s*\.import\b[^"\n]*"([^"\n]+)"', x, re.M),
-                      "entry": (re.findall(r'^\s*entry\s*=\s*"([^"]*)"', x, re.M) or [""])[0]} for t, x in sorted(ses.texts.items())],
+                      "entry": (re.findall(r'^\s*entry\s*=\s*"([^"]*)"', x, re.M) or [""])[0],
+                      "tests": ".test " in x, "mlna": bool(re.search(r"/\*[^*\n]*[^\x00-\x7f][^*\n]*\n", x))} for t, x in sorted(ses.texts.items())],
            "events": ses.events,
            "shownH": [{"f": f, "d": shown_h.get(f, "[]")} for f in files],
            "shownF": [{"f": f, "d": ref["shown"].get(f, "[]")} for f in files],
@@ -348,7 +382,7 @@ def random_script(rnd, n, layout="A"):
     DISK = LAYOUTS[layout]
     for _ in range(rnd.randrange(4, 9)):
         f = rnd.choice(["main.asm", "main.asm", "inc.asm", "inc.asm", "mos.toml"])
-        tids = ["ma", "mb", "mx"] if f == "main.asm" else ["ia", "ib", "ix"] if f == "inc.asm" else ["ca", "cb"]
+        tids = ["ma", "mb", "mx"] if f == "main.asm" else ["ia", "ib", "ix", "ir"] if f == "inc.asm" else ["ca", "cb"]
         x = rnd.random()
         if f in openb and x < 0.25:
             sc.append(("close", f))
@@ -378,7 +412,8 @@ def random_script(rnd, n, layout="A"):
 
 # ---------------------------------------------------------------- main
 
-ALL_DEVS = ["CloseDoesNotReanalyse", "RenameTaintsCache", "StaleDiagnosticsForDroppedFile", "PrepareRenameSlicesPastEol", "SourceLinePastEof", "CompletionSplitsInsideChar",
+ALL_DEVS = ["MalformedParamsPanic", "UnknownRequestNeverAnswered", "NonUtf8PathPanics", "WorkspaceSymbolRecursesImports", "SemanticTokenPastEndOfLine", "CodeLensOfImportedTests",
+            "CloseDoesNotReanalyse", "RenameTaintsCache", "StaleDiagnosticsForDroppedFile", "PrepareRenameSlicesPastEol", "SourceLinePastEof", "CompletionSplitsInsideChar",
             "DidChangeFirstEntryWins", "NonFileUriPanics"]
 
 
@@ -448,7 +483,13 @@ def main(tier):
     rnd.shuffle(longer)
     longer = longer[:60 if tier == "quick" else 800]
     # three fixed sessions whose last request is out of range in the three ways the pinned reading crashes on
-    fixed = [[("open", "main.asm", "ma", TEXTS["ma"]), ("change0", "main.asm")],                                  # didChange without entries
+    om = ("open", "main.asm", "ma", TEXTS["ma"])
+    fixed = [[om, ("odd", "badreq")], [om, ("odd", "negpos")], [om, ("odd", "badnotif")], [("badinit",), om], [om, ("odd", "unknown")],      # outside the protocol
+             [om, ("req", "hover", "%FF.asm", 0, 0)], [om, ("req", "codeLens", "%FF.asm", 0, 0)],                                        # a path that is not UTF-8
+             [om, ("open", "inc.asm", "ir", TEXTS["ir"])],                                                                               # import cycle, then workspace/symbol
+             [("open", "main.asm", "mb", TEXTS["mb"]), ("req", "semanticTokens", "main.asm", 0, 0)],                                      # a value that spans lines
+             [("open", "inc.asm", "ib", TEXTS["ib"]), om, ("req", "codeLens", "main.asm", 0, 0)],                                         # tests in an imported file
+             [("open", "main.asm", "ma", TEXTS["ma"]), ("change0", "main.asm")],                                  # didChange without entries
              [("open", "main.asm", "ma", TEXTS["ma"]), ("change2", "main.asm", "mx", TEXTS["mx"], "mb", TEXTS["mb"])],   # two entries: the last is the buffer
              [("open", "main.asm", "ma", TEXTS["ma"]), ("nonfile", "open")],                                    # an unsaved (untitled:) document
              [("open", "main.asm", "mb", TEXTS["mb"]), ("nonfile", "definition")],
@@ -507,7 +548,7 @@ def main(tier):
             m["lastRound"] = ["inc.asm", "main.asm", "other.asm"]
         muts.append(m)
     mv = V.judge(judge_mod, muts, cfg=judge_cfg, env={"DEVS": devs_now}, tag="C14-selftest")[0] if muts else []
-    caught = {v["id"] for v in mv if v["verdict"] == "violation"}
+    caught = {v["id"] for v in mv if v["verdict"] == "violation" or (v["verdict"] == "deviation" and v.get("dev") not in rep.open)}
     if caught != {m["id"] for m in muts}:
         raise V.ToolError("judge self-test: corrupted sessions not rejected: %s" % sorted({m["id"] for m in muts} - caught))
     if muts:
